@@ -64,7 +64,25 @@ func glob(pattern, s string) bool {
 	if !strings.Contains(pattern, "*") {
 		return pattern == s
 	}
-	parts := strings.Split(pattern, "*")
+	// a '*' directly after '(' and before a letter is Go's pointer-receiver syntax "(*pkg.T)", not a wildcard
+	var parts []string
+	cur := strings.Builder{}
+	for i := 0; i < len(pattern); i++ {
+		c := pattern[i]
+		if c == '*' {
+			lit := i > 0 && pattern[i-1] == '(' && i+1 < len(pattern) && (pattern[i+1] >= 'a' && pattern[i+1] <= 'z' || pattern[i+1] >= 'A' && pattern[i+1] <= 'Z')
+			if !lit {
+				parts = append(parts, cur.String())
+				cur.Reset()
+				continue
+			}
+		}
+		cur.WriteByte(c)
+	}
+	parts = append(parts, cur.String())
+	if len(parts) == 1 {
+		return parts[0] == s
+	}
 	if !strings.HasPrefix(s, parts[0]) {
 		return false
 	}
